@@ -37,6 +37,7 @@ class BaseARTMAP(BaseEstimator, ClassifierMixin, ClusterMixin):
         local_params = dict(valid_params)
 
         nested_params = defaultdict(dict)  # grouped by prefix
+        own_params = {}
         for key, value in params.items():
             key, delim, sub_key = key.partition("__")
             if key not in valid_params:
@@ -49,10 +50,13 @@ class BaseARTMAP(BaseEstimator, ClassifierMixin, ClusterMixin):
             if delim:
                 nested_params[key][sub_key] = value
             else:
-                setattr(self, key, value)
+                own_params[key] = value
                 valid_params[key] = value
                 local_params[key] = value
 
+        # every name is known: only now assign (a rejected call changes nothing)
+        for key, value in own_params.items():
+            setattr(self, key, value)
         for key, sub_params in nested_params.items():
             valid_params[key].set_params(**sub_params)
         return self
